@@ -5,8 +5,7 @@ from props import rt_common as R
 ID = "C10"; MODEL = "rt"; IMPL = "rt"
 COQ_PROP = "Properties/C10.v"; COQ_DIRS = ["Common", "CQueue", "Runtime"]
 COQ_MODULE = "Runtime.Model"; RUN_FN = "run"
-THEOREMS = ["C10_stepped_log_eq_run_log", "C10_step_ignores_configured_limit", "C10_n_step_exact",
-            "C10_until_step_exact", "C10_paused_state", "C10_paused_add_ok_iff"]
+THEOREMS = ["C10_stepped_log_eq_run_log", "C10_stepped_block_eq_run_block", "C10_step_ignores_configured_limit", "C10_n_step_exact", "C10_until_step_exact", "C10_paused_state", "C10_paused_add_ok_iff"]
 QUICK_N = 2500; THOROUGH_N = 150000
 RULE = ("scripts = random event program (as for C11, ties frequent) x step schedule of 1-6 operations"
         " dispatch_n_events(k) (k in 0,1,2,3,total,total+3), dispatch_events_until(T) (T at / one below / one above the"
@@ -14,7 +13,7 @@ RULE = ("scripts = random event program (as for C11, ties frequent) x step sched
         " reported time, between it and the next pending event), aimed with a reference interpreter so that cuts fall inside"
         " groups of equal timestamps; 15% of the scripts also configure a limit (steps must ignore it); non-trivial ="
         " distinct script hitting at least two targeted mechanisms (step_cut_inside_tie, paused_add_before_next_event, ...)")
-TRUSTED = R_TRUSTED = ["the future event set is the two-list specification CQueue.Spec (tied to the calendar queue by C01)",
+TRUSTED = ["the future event set is the two-list specification CQueue.Spec (tied to the calendar queue by C01)",
                        "user code is the scripted handler of harness/src/bin/rt.rs",
                        "usize/Duration overflow is outside the model"]
 ASSUMPTIONS = ["times fit in 63 bits; start_time/bucket width below ~2e5"]
